@@ -41,6 +41,14 @@ class C01(PropBase):
         yield b"*" + b"0" * 28 + b";"
         yield b"F" * 28
         yield b"F" * 14
+        # a byte that is not UTF-8 (three bytes after the lossy decoding) or a two / three / four byte character at every offset
+        # 0..44 behind every line-style mark: wherever a line is cut by position, the cut may fall inside a character
+        fr = F.df17(5, 0x3C6611, F.me_ident(4, 3, F.callsign_codes("UTF8")))
+        body = "0123456789AB" + "1A" + fr
+        for mark in (b"<", b"@", b"*", b"", b" ", b"<<", b"@*"):
+            for k in range(45):
+                for ch in (b"\xff", "\u00e9".encode(), "\u20ac".encode(), "\U0001F600".encode()):
+                    yield mark + body[:k].encode() + ch + body[k:].encode() + b";"
 
     def sweeps(self, rng):
         a = lambda: rng.randrange(1, 1 << 24)
@@ -90,6 +98,9 @@ class C01(PropBase):
         for u, r in gen.ALL_CFGS if tier == "thorough" else ((False, False), (True, True)):
             for lo in range(0, len(sweep), 2000):
                 streams.append((dict(use_update=u, relaxed=r), [l.encode() for l in sweep[lo:lo + 2000]]))
+        # every hostile line once, in order, on both paths
+        streams.append((dict(use_update=False, relaxed=False), list(hostile)))
+        streams.append((dict(use_update=True, relaxed=True, count=True), list(hostile)))
         # hostile lines interleaved with histories
         for k in range(30 if tier == "quick" else 600):
             lines = []
